@@ -98,6 +98,8 @@ pub enum SOp {
     Advance(u32),
     Len,
     DropHandle,
+    /// get_ttl of a key (not a metered lookup)
+    GetTtl { k: u32 },
 }
 
 #[derive(Clone, Debug, PartialEq, Eq, Serialize, Deserialize, Hash)]
@@ -195,6 +197,7 @@ pub trait Api: Send + Sync {
     fn get(&self, k: K) -> Option<Val>;
     fn get_mut(&self, k: K) -> Option<Val>;
     fn get_hold(&self, k: K, ms: u32) -> Option<(Val, Duration, Duration)>;
+    fn get_ttl(&self, k: K) -> Option<Duration>;
     fn get_linger(&self, k: K, us: u16, mutable: bool) -> Option<Val>;
     fn wait(&self) -> Result<(), String>;
     fn clear(&self) -> Result<(), String>;
@@ -355,6 +358,9 @@ where
     fn get_mut(&self, k: K) -> Option<Val> {
         self.0.get_mut(&k).map(|r| *r.value())
     }
+    fn get_ttl(&self, k: K) -> Option<Duration> {
+        self.0.get_ttl(&k)
+    }
     fn get_hold(&self, k: K, ms: u32) -> Option<(Val, Duration, Duration)> {
         self.0.get(&k).map(|r| {
             let t1 = r.ttl();
@@ -438,6 +444,9 @@ where
     }
     fn get_mut(&self, k: K) -> Option<Val> {
         bo(self.0.get_mut(&k)).map(|r| *r.value())
+    }
+    fn get_ttl(&self, k: K) -> Option<Duration> {
+        self.0.get_ttl(&k)
     }
     fn get_hold(&self, k: K, ms: u32) -> Option<(Val, Duration, Duration)> {
         bo(self.0.get(&k)).map(|r| {
@@ -823,6 +832,10 @@ struct Shared {
     errs: AtomicU32,
     lookups: AtomicU64,
     closed_ok: AtomicBool,
+    /// monotonic instant at which the first close() returned Ok (0: none yet)
+    closed_ok_ns: AtomicU64,
+    /// an insert that began after that instant and was accepted
+    late_accept: Mutex<Option<String>>,
     violations: Mutex<Vec<SResult>>,
     history: Mutex<Vec<String>>,
     clears: AtomicU32,
@@ -967,6 +980,8 @@ fn run_inner(case: &StressCase) -> SResult {
         errs: AtomicU32::new(0),
         lookups: AtomicU64::new(0),
         closed_ok: AtomicBool::new(false),
+        closed_ok_ns: AtomicU64::new(0),
+        late_accept: Mutex::new(None),
         violations: Mutex::new(Vec::new()),
         history: Mutex::new(Vec::new()),
         clears: AtomicU32::new(0),
@@ -1094,6 +1109,9 @@ fn run_inner(case: &StressCase) -> SResult {
         post.register(t);
         match kind {
             Kind::Close => {
+                if let Some(m) = post_sh.late_accept.lock().clone() {
+                    return Some(SResult::violation(&["C12"], "insert_accepted_after_close", m));
+                }
                 if !drop_only {
                     // a close() has returned Ok during the run: from then on nothing may panic,
                     // the unwrapping variants included
@@ -1129,6 +1147,7 @@ fn run_inner(case: &StressCase) -> SResult {
                         if ins != Ok(false) {
                             return Some(SResult::violation(&["C12"], "insert_after_close", format!("insert_if_present after close returned {:?}", ins)));
                         }
+                        let m_before = api2.metrics().map(|m| (m.hits, m.misses));
                         for k in 0..6u64 {
                             post.enter(t, 4);
                             let g = api2.get(k);
@@ -1136,6 +1155,13 @@ fn run_inner(case: &StressCase) -> SResult {
                             post.leave(t);
                             if g.is_some() || gm.is_some() {
                                 return Some(SResult::violation(&["C12"], "get_after_close", format!("lookup of key {} after close returned {:?}/{:?}", k, g, gm)));
+                            }
+                        }
+                        // C17: hits + misses count the lookups made on the *open* cache
+                        let m_after = api2.metrics().map(|m| (m.hits, m.misses));
+                        if let (Some(b), Some(a)) = (m_before, m_after) {
+                            if a != b {
+                                return Some(SResult::violation(&["C17"], "lookup_counted_after_close", format!("twelve lookups on the closed cache moved (hits, misses) from {:?} to {:?}", b, a)));
                             }
                         }
                         // "without effect" is judged once the workers have wound down: a processor
@@ -1404,8 +1430,11 @@ fn client(t: usize, kind: Kind, api: Box<dyn Api>, script: &[SOp], sh: &Shared, 
                                 expect.remove(&k);
                             }
                         }
-                        if sh.closed_ok.load(Ordering::SeqCst) && kind == Kind::Close {
-                            // the insert may have begun before the close finished: legal
+                        // C12: once a close() has returned Ok, insert returns false - an insert that
+                        // *began* after that return (monotonic clock) must not be accepted
+                        let c_ns = sh.closed_ok_ns.load(Ordering::SeqCst);
+                        if c_ns != 0 && began > c_ns {
+                            sh.late_accept.lock().get_or_insert_with(|| format!("insert of key {} began {} us after a close() had returned Ok and returned true", k, (began - c_ns) / 1000));
                         }
                     }
                     Ok(false) => {
@@ -1558,6 +1587,11 @@ fn client(t: usize, kind: Kind, api: Box<dyn Api>, script: &[SOp], sh: &Shared, 
                     }
                 }
             }
+            SOp::GetTtl { k } => {
+                progress.enter(t, 4);
+                let _ = a.get_ttl(*k as u64);
+                progress.leave(t);
+            }
             SOp::GetHold { k, ms } => {
                 progress.enter(t, 4);
                 let r = a.get_hold(*k as u64, *ms);
@@ -1656,6 +1690,7 @@ fn client(t: usize, kind: Kind, api: Box<dyn Api>, script: &[SOp], sh: &Shared, 
                 sh.clear_seq.fetch_add(1, Ordering::SeqCst);
                 hist(format!("close() = {:?}", r));
                 if r.is_ok() {
+                    let _ = sh.closed_ok_ns.compare_exchange(0, mono_ns().max(1), Ordering::SeqCst, Ordering::SeqCst);
                     sh.closed_ok.store(true, Ordering::SeqCst);
                 }
             }
@@ -1933,6 +1968,7 @@ fn sop_common(nkeys: u32, max_cost: i64) -> BoxedStrategy<SOp> {
         4 => (0..nkeys).prop_map(|k| SOp::Remove { k }),
         6 => (0..nkeys).prop_map(|k| SOp::Get { k }),
         1 => (0..nkeys).prop_map(|k| SOp::GetMut { k }),
+        2 => (0..nkeys).prop_map(|k| SOp::GetTtl { k }),
         1 => (0u16..3000).prop_map(SOp::Spin),
     ]
     .boxed()
@@ -2113,6 +2149,7 @@ pub fn stress_strategy(kind: Kind, async_pct: u32) -> BoxedStrategy<StressCase> 
                     10 => (0u32..40, prop_oneof![Just(1i64), Just(0i64), Just(unit), Just((unit / 3).max(1)), Just(neg), Just(neg)], prop_oneof![3 => Just(0u32), 2 => 1u32..1500]).prop_map(|(k, cost, ttl_ms)| SOp::Insert { k, cost, ttl_ms }),
                     10 => (0u32..40).prop_map(|k| SOp::Get { k }),
                     2 => (0u32..40).prop_map(|k| SOp::GetMut { k }),
+                    3 => (0u32..40).prop_map(|k| SOp::GetTtl { k }),
                     2 => (0u32..40, prop_oneof![Just(0u32), Just(1u32), 1u32..3000]).prop_map(|(k, ms)| SOp::GetHold { k, ms }),
                     3 => (0u32..40).prop_map(|k| SOp::Remove { k }),
                     2 => (0u32..40, 1i64..3).prop_map(|(k, cost)| SOp::Iip { k, cost }),
@@ -2137,7 +2174,7 @@ pub fn stress_strategy(kind: Kind, async_pct: u32) -> BoxedStrategy<StressCase> 
                                         *k %= 3;
                                         *ttl_ms = 1 + ((i as u32 * 769 + ti as u32 * 331 + *k * 97) % 2600);
                                     }
-                                    SOp::Iip { k, .. } | SOp::Remove { k } | SOp::Get { k } | SOp::GetMut { k } | SOp::GetHold { k, .. } => *k %= 3,
+                                    SOp::Iip { k, .. } | SOp::Remove { k } | SOp::Get { k } | SOp::GetMut { k } | SOp::GetTtl { k } | SOp::GetHold { k, .. } => *k %= 3,
                                     _ => {}
                                 }
                             }
@@ -2276,7 +2313,7 @@ pub fn stress_strategy(kind: Kind, async_pct: u32) -> BoxedStrategy<StressCase> 
                     for t in threads.iter_mut() {
                         for (i, op) in t.iter_mut().enumerate() {
                             match op {
-                                SOp::Insert { k, .. } | SOp::Iip { k, .. } | SOp::Remove { k } | SOp::Get { k } | SOp::GetMut { k } | SOp::GetLinger { k, .. } => {
+                                SOp::Insert { k, .. } | SOp::Iip { k, .. } | SOp::Remove { k } | SOp::Get { k } | SOp::GetMut { k } | SOp::GetTtl { k } | SOp::GetLinger { k, .. } => {
                                     if hot {
                                         *k %= 2;
                                     } else if (*k as usize * 7 + i) % 3 == 0 {
@@ -2292,7 +2329,8 @@ pub fn stress_strategy(kind: Kind, async_pct: u32) -> BoxedStrategy<StressCase> 
                     // meanwhile) while the processor charges, re-prices and releases
                     if hot && perturb % 2 == 0 {
                         for r in 0..2u32 {
-                            threads.push((0..160u32).map(|i| SOp::Get { k: (i * 7 + r) % 10 }).collect());
+                            // (lookups and get_ttl of the hot keys and of their neighbours, alternating)
+                            threads.push((0..240u32).map(|i| if i % 2 == 0 { SOp::Get { k: (i * 7 + r) % 10 } } else { SOp::GetTtl { k: (i / 2 + r) % 2 } }).collect());
                         }
                     }
                     threads
